@@ -103,6 +103,12 @@ func c08Cases(level int) ([]SCase, map[string][]string) {
 			}
 		}
 	}
+	for _, c := range collisionTriples("C08", func(i int) J {
+		return []J{{"type": "string", "enum": A{"queued", "running"}}, {"type": "string", "enum": A{"ok", "failed"}}, {"enum": A{"x", 1}}}[i]
+	}, false) {
+		want[c.ID] = nil
+		cases = append(cases, c)
+	}
 	return cases, want
 }
 
